@@ -434,6 +434,72 @@ fn check_final_valid(p: &Psbt, s: &Setup, i: usize) -> Result<(), Failure> {
     }
 }
 
+/// The satisfier that holds exactly what input `i` of the PSBT carries (signatures, preimages),
+/// in the PSBT's transaction (locks, version).
+fn direct_sat(s: &Setup, before: &Psbt, i: usize) -> WorldSat {
+    let mut ds = s.sats[i].clone();
+    let inp = &before.inputs[i];
+    ds.ecdsa.retain(|kb, _| bitcoin::PublicKey::from_slice(kb).map(|pk| inp.partial_sigs.contains_key(&pk)).unwrap_or(false));
+    if inp.tap_key_sig.is_none() {
+        ds.tap_key = None;
+    }
+    ds.tap_leaf.retain(|(x, lh), _| match bitcoin::key::XOnlyPublicKey::from_slice(x) {
+        Ok(xo) => inp.tap_script_sigs.contains_key(&(xo, TapLeafHash::from_byte_array(*lh))),
+        Err(_) => false,
+    });
+    if inp.sha256_preimages.is_empty() {
+        ds.preimages.clear();
+    }
+    ds
+}
+
+/// (i) the finalizer and the descriptor's own satisfier, given the same material, agree: on
+/// whether the input can be spent (when the input carries the descriptor's scripts and key
+/// origins) and on the witness (per mode; for taproot: the stack of the leaf that was used).
+fn check_agreement(s: &Setup, before: &Psbt, p: &Psbt, i: usize, mall: bool, updated: bool) -> Result<(), Failure> {
+    let ds = direct_sat(s, before, i);
+    let direct = guard("get_satisfaction", || if mall { s.libs[i].get_satisfaction_mall(&ds) } else { s.libs[i].get_satisfaction(&ds) })?;
+    let now = is_final(p, i);
+    let kind = s.descs[i].kind();
+    let mode = if mall { "mall" } else { "nonmall" };
+    match (now, &direct) {
+        (true, Err(e)) => fail(&format!("finalize-succeeds-where-satisfier-fails/{}/{}", kind, mode), format!("input {} ({}) was finalized although the descriptor's satisfier with the same signatures / preimages / locks fails: {}", i, s.descs[i].print(true), e)),
+        (false, Ok(_)) if updated => fail(&format!("finalize-fails-where-satisfier-succeeds/{}/{}", kind, mode), format!("input {} ({}) carries its scripts and key origins, the descriptor's satisfier succeeds with the same signatures / preimages / locks (nVersion {}), the finalizer does not", i, s.descs[i].print(true), p.unsigned_tx.version.0)),
+        (true, Ok((wit, ss))) => {
+            let fw: Vec<Vec<u8>> = p.inputs[i].final_script_witness.as_ref().map(|w| w.iter().map(|e| e.to_vec()).collect()).unwrap_or_default();
+            let fs = p.inputs[i].final_script_sig.clone().unwrap_or_default();
+            if &fw == wit && &fs == ss {
+                return Ok(());
+            }
+            if let (MDesc::Tr(..), miniscript::Descriptor::Tr(tr)) = (&s.descs[i], &s.libs[i]) {
+                // the finalizer may prefer another leaf of equal weight: compare the stack of the
+                // leaf it used with that leaf's own satisfaction in the same mode
+                if fw.len() >= 2 && fs.is_empty() {
+                    let script = &fw[fw.len() - 2];
+                    for leaf in tr.leaves() {
+                        let ms = leaf.miniscript();
+                        if ms.encode().as_bytes() == &script[..] {
+                            let st = guard("leaf satisfy", || if mall { ms.satisfy_malleable(&ds) } else { ms.satisfy(&ds) })?;
+                            match st {
+                                Ok(st) if st[..] == fw[..fw.len() - 2] => return Ok(()),
+                                _ => {}
+                            }
+                        }
+                    }
+                }
+                if fw.len() == 1 && wit.len() == 1 && fw == *wit {
+                    return Ok(());
+                }
+            }
+            fail(
+                &format!("finalize-differs-from-satisfier/{}/{}", kind, mode),
+                format!("input {} ({}): finalize{} gives witness {:?} / scriptSig {} but the descriptor's satisfier gives {:?} / {}", i, s.descs[i].print(true), if mall { "_mall" } else { "" }, fw.iter().map(|x| keys::hex(x)).collect::<Vec<_>>(), fs.to_hex_string(), wit.iter().map(|x| keys::hex(x)).collect::<Vec<_>>(), ss.to_hex_string()),
+            )
+        }
+        _ => Ok(()),
+    }
+}
+
 /// Run a history, checking the invariants after every step.
 fn run(s: &Setup, ops: &[Op], rep: &mut Report, classes: bool) -> Result<Psbt, Failure> {
     let secp = Secp256k1::verification_only();
@@ -441,9 +507,15 @@ fn run(s: &Setup, ops: &[Op], rep: &mut Report, classes: bool) -> Result<Psbt, F
     let n = s.descs.len();
     let mut failed_then_succeeded = vec![false; n];
     let mut had_failure = vec![false; n];
+    let mut updated = vec![false; n];
     for op in ops {
         let before = p.clone();
         if op.is_add() {
+            if let Op::Update(i) = op {
+                if !is_final(&p, *i) {
+                    updated[*i] = true;
+                }
+            }
             apply_add(&mut p, s, op)?;
             continue;
         }
@@ -526,6 +598,19 @@ fn run(s: &Setup, ops: &[Op], rep: &mut Report, classes: bool) -> Result<Psbt, F
             }
             _ => {}
         }
+        // (i) agreement with the descriptor's own satisfier
+        for i in 0..n {
+            let (targets, mall) = match op {
+                Op::Finalize => (true, false),
+                Op::FinalizeMall => (true, true),
+                Op::FinalizeInp(j) => (*j == i, false),
+                Op::FinalizeInpMall(j) => (*j == i, true),
+                _ => (false, false),
+            };
+            if targets && !is_final(&before, i) {
+                check_agreement(s, &before, &p, i, mall, updated[i])?;
+            }
+        }
         // invariants after a finalize-type op
         for i in 0..n {
             let was = is_final(&before, i);
@@ -574,7 +659,7 @@ fn run(s: &Setup, ops: &[Op], rep: &mut Report, classes: bool) -> Result<Psbt, F
 impl Check for C14 {
     fn id(&self) -> &'static str { "C14" }
     fn rule(&self) -> String {
-        "case = PSBT with 1-3 inputs, each spending an output of a random sane definite descriptor (hex and xpub keys with origins; witness_utxo / non_witness_utxo as the type requires), all signatures made for the actual unsigned transaction; history = up to 14 operations from {update_input_with_descriptor(i), add signature k of input i, add preimages(i), add unknown field(i), finalize_mut, finalize_mall_mut, finalize_inp_mut(i), finalize_inp_mall_mut(i), extract}; a twin history with the add-operations of every run shuffled. Invariants after every step: newly final inputs validate in the reference interpreter (standardness flags) inside the actual transaction and carry no signing data; final inputs never change; a finalize that does not finalize an input leaves it deep-equal; finalize twice == once; finalize(_mall)_mut returns Ok exactly when every input is final afterwards and finalize_inp(_mall)_mut(i) exactly when input i is (already-final inputs are skipped, never errors); finalize_inp(_mall)_mut(i) leaves input i exactly as finalize(_mall)_mut would; extract Ok => all inputs final and valid, transaction == unsigned tx + final fields, PSBT unchanged; after update: redeem/witness scripts, key origins (own BIP32), tap internal key / merkle root / control blocks / per-key leaf hashes equal the independent model; twin histories end in byte-identical PSBTs. Non-trivial = histories with a failing finalize followed by a successful one for the same input, or >= 2 finalize calls, or a reordered twin; distinct by (descriptors, history).".into()
+        "case = PSBT with 1-3 inputs, each spending an output of a random sane definite descriptor (hex and xpub keys with origins; witness_utxo / non_witness_utxo as the type requires), all signatures made for the actual unsigned transaction; history = up to 14 operations from {update_input_with_descriptor(i), add signature k of input i, add preimages(i), add unknown field(i), finalize_mut, finalize_mall_mut, finalize_inp_mut(i), finalize_inp_mall_mut(i), extract}; a twin history with the add-operations of every run shuffled. Invariants after every step: newly final inputs validate in the reference interpreter (standardness flags) inside the actual transaction and carry no signing data; final inputs never change; a finalize that does not finalize an input leaves it deep-equal; finalize twice == once; finalize(_mall)_mut returns Ok exactly when every input is final afterwards and finalize_inp(_mall)_mut(i) exactly when input i is (already-final inputs are skipped, never errors); finalize_inp(_mall)_mut(i) leaves input i exactly as finalize(_mall)_mut would; the finalizer agrees with the descriptor's own satisfier holding exactly the input's signatures / preimages in the same transaction: same verdict (for inputs that carry their scripts and key origins) and same witness per mode (for taproot: the stack of the leaf used equals that leaf's satisfaction in that mode); extract Ok => all inputs final and valid, transaction == unsigned tx + final fields, PSBT unchanged; after update: redeem/witness scripts, key origins (own BIP32), tap internal key / merkle root / control blocks / per-key leaf hashes equal the independent model; twin histories end in byte-identical PSBTs. Non-trivial = histories with a failing finalize followed by a successful one for the same input, or >= 2 finalize calls, or a reordered twin; distinct by (descriptors, history).".into()
     }
     fn lanes(&self, tier: Tier) -> Vec<(&'static str, usize, usize)> {
         match tier {
